@@ -267,3 +267,98 @@ Example C09_simpson_example :
   map (fun i => this (ws QcF wg5 i)) [0; 1; 2; 3; 4] = [1 # 1; 4 # 1; 2 # 1; 4 # 1; 1 # 1]%Q /\
   gn ex_geom = 2 * Z.of_nat 0 + 3.
 Proof. vm_compute. repeat split. Qed.
+
+(** ** Tie to the source by translation (second wave).  [Gen/Gen_Moments.v] is regenerated from
+    src/PS/PhaseSpace.cpp on every run (translate/moments2coq.py): closed forms of the loops of
+    simpsonWeights, updateXProjection, updateYProjection, integrate, normalize, average, variance,
+    integrateAndNormalize, and the refresh sequences of the constructor and of operator=.  The model
+    the theorems above are about is proved to be that code: every generated operation, started on a
+    state that agrees with a model state on the cells of the object ([steq]), ends on one that agrees
+    with the model's result - for every field, geometry, grid size, data and operation history.
+    A changed loop bound, index, weight, axis argument, quotient or divisor in the source changes the
+    generated definitions and these statements no longer check. *)
+From Inovesa Require Import Model.MomentsIR Gen.Gen_Moments Proofs.MomentsGenP.
+
+(** the weight vector the constructor stores ([_ws(simpsonWeights())]) is the model's, entry by entry *)
+Theorem C09_source_simpson_weights_are_model :
+  forall (K : Fld) (pos : K -> bool) (g : geom K) i,
+    0 <= i < gn g -> gen_ctor_ws K (env_of K pos g) i = ws K g i.
+Proof. exact gen_ctor_ws_is_model. Qed.
+Print Assumptions C09_source_simpson_weights_are_model.
+
+(** every operation history of the generated operations, run on the object as it is constructed
+    ([env_gen]: sizes, rulers and set filling of the geometry, weights computed by the generated
+    simpsonWeights), is simulated by the model's [run_ops] (op codes as in Model/Moments.v: 0 updateX,
+    1 updateY, 2 integrate, 3 normalize, 4/5 average, 6/7 variance, 8 integrateAndNormalize) *)
+Theorem C09_source_operations_are_model :
+  forall (K : Fld) (pos : K -> bool) (g : geom K) (ops : list Z) (m : mst K) (s : state K),
+    steq K g m s -> steq K g (gen_run_ops K (env_gen K pos g) m ops) (run_ops K pos g s ops).
+Proof. exact gen_run_ops_sim_constructed. Qed.
+Print Assumptions C09_source_operations_are_model.
+
+(** what the constructor and operator= call after the data are in place is the model's [refresh] *)
+Theorem C09_source_refresh_is_model :
+  forall (K : Fld) (pos : K -> bool) (g : geom K) (m : mst K) (s : state K),
+    steq K g m s ->
+    steq K g (gen_ctor_refresh K (env_gen K pos g) m) (refresh K g s) /\
+    steq K g (gen_assign_refresh K (env_gen K pos g) m) (refresh K g s).
+Proof. exact gen_refresh_sim_constructed. Qed.
+Print Assumptions C09_source_refresh_is_model.
+
+(** the share, empty-bucket and moment theorems stated on the generated operations themselves *)
+Theorem C09_source_normalize_restores_share :
+  forall (K : Fld) (pos : K -> bool) (g : geom K) (m : mst K) b,
+    0 <= b < gnb g -> pos (gfs g b) = true ->
+    m_fill m b = charge_of K g (m_data m) b -> m_fill m b <> f0 ->
+    let E := env_gen K pos g in
+    m_fill (gen_integrate K E (gen_updateXProjection K E (gen_normalize K E m))) b = gfs g b.
+Proof. exact gen_normalize_restores_share_c. Qed.
+Print Assumptions C09_source_normalize_restores_share.
+
+Theorem C09_source_normalize_empty_bucket :
+  forall (K : Fld) (pos : K -> bool) (g : geom K) (m : mst K) b,
+    0 <= b < gnb g -> pos (gfs g b) = false ->
+    let E := env_gen K pos g in
+    m_fill (gen_integrate K E (gen_updateXProjection K E (gen_normalize K E m))) b = f0 /\
+    (forall x y, 0 <= x < gn g -> 0 <= y < gn g -> m_data (gen_normalize K E m) b x y = f0).
+Proof. exact gen_normalize_empty_bucket_c. Qed.
+Print Assumptions C09_source_normalize_empty_bucket.
+
+Theorem C09_source_average_is_first_moment :
+  forall (K : Fld) (pos : K -> bool) (g : geom K) (m : mst K) axis b,
+    axis = 0 \/ axis = 1 -> 0 <= b < gnb g -> pos (gfs g b) = true -> m_fill m b <> f0 ->
+    m_mom (gen_average K (env_gen K pos g) axis m) axis 0 b =
+    first_moment K (gn g) (gdelta K g axis) (gqp K g axis) (m_proj m axis b) (m_fill m b).
+Proof. exact gen_average_is_first_moment_c. Qed.
+Print Assumptions C09_source_average_is_first_moment.
+
+Theorem C09_source_variance_is_second_central_moment :
+  forall (K : Fld) (pos : K -> bool) (g : geom K) (m : mst K) axis b,
+    axis = 0 \/ axis = 1 -> 0 <= b < gnb g -> pos (gfs g b) = true -> m_fill m b <> f0 ->
+    let m' := gen_variance K (env_gen K pos g) axis m in
+    m_mom m' axis 0 b =
+      first_moment K (gn g) (gdelta K g axis) (gqp K g axis) (m_proj m axis b) (m_fill m b) /\
+    m_mom m' axis 1 b =
+      second_central_moment K (gn g) (gdelta K g axis) (gqp K g axis) (m_proj m axis b) (m_fill m b)
+                            (m_mom m' axis 0 b).
+Proof. exact gen_variance_is_second_central_moment_c. Qed.
+Print Assumptions C09_source_variance_is_second_central_moment.
+
+Theorem C09_source_moments_empty_bucket :
+  forall (K : Fld) (pos : K -> bool) (g : geom K) (m : mst K) axis b,
+    axis = 0 \/ axis = 1 -> 0 <= b < gnb g -> pos (gfs g b) = false ->
+    m_mom (gen_variance K (env_gen K pos g) axis m) axis 0 b = f0 /\
+    m_mom (gen_variance K (env_gen K pos g) axis m) axis 1 b = f0.
+Proof. exact gen_moments_empty_bucket_c. Qed.
+Print Assumptions C09_source_moments_empty_bucket.
+
+(** non-vacuity: the generated operations run on the example object (3x3, two bunches) as constructed: the
+    state that corresponds to a model state agrees with it; the generated normalize/updateX/integrate give
+    the shares 3/4 and 1/4; the generated weights on 5 points are 1 4 2 4 1 *)
+Example C09_source_example :
+  steq QcF ex_geom (to_mst QcF ex_state) ex_state /\
+  (let E := env_gen QcF posQc ex_geom in
+   map (fun b => this (m_fill (gen_integrate QcF E (gen_updateXProjection QcF E (gen_normalize QcF E (to_mst QcF ex_state)))) b))
+       [0; 1] = [(3 # 4)%Q; (1 # 4)%Q]) /\
+  map (fun i => this (gen_ctor_ws QcF (env_of QcF posQc wg5) i)) [0; 1; 2; 3; 4] = [1 # 1; 4 # 1; 2 # 1; 4 # 1; 1 # 1]%Q.
+Proof. split; [apply steq_to_mst|]. split; vm_compute; reflexivity. Qed.
